@@ -473,6 +473,20 @@ func (c *Ctx) methodRecv(s *State, base Value, bt types.Type, sel *types.Selecti
 		if id, ok := unparen(at.X).(*ast.Ident); ok && len(path) == 0 {
 			return c.addrOf(id, s), rt
 		}
+		// x.f.M() with f a struct field of a heap object and M a pointer-receiver method: the sub-object
+		if se, ok := unparen(at.X).(*ast.SelectorExpr); ok && len(path) == 0 {
+			if fsel, ok := c.info().Selections[se]; ok && fsel.Kind() == types.FieldVal {
+				bv := c.eval(se.X, s)
+				idx := fsel.Index()
+				href, hst, _ := c.walkPath(s, bv, c.typeOf(se.X), idx[:len(idx)-1], se)
+				if href != "" {
+					f := hst.Underlying().(*types.Struct).Field(idx[len(idx)-1])
+					if c.isStructByValueField(f) {
+						return IntV{c.subObject(s, href, hst, f)}, rt
+					}
+				}
+			}
+		}
 		c.abstractNote(at.Pos(), "pointer receiver of by-value struct")
 		return IntV{c.fresh("recv", sInt)}, rt
 	}
@@ -987,6 +1001,31 @@ func (c *Ctx) specialCall(x *ast.CallExpr, s *State, callee *types.Func, key str
 	case "sync.(*Mutex).Lock", "sync.(*Mutex).Unlock", "sync.(*RWMutex).Lock", "sync.(*RWMutex).Unlock", "sync.(*RWMutex).RLock", "sync.(*RWMutex).RUnlock":
 		c.eng.onLock(c, s, x, callee.Name(), recv)
 		return NoneV{}, true
+	}
+	if callee.Pkg() != nil && callee.Pkg().Path() == "sync/atomic" && len(x.Args) >= 1 {
+		if ue, ok := unparen(x.Args[0]).(*ast.UnaryExpr); ok && ue.Op == token.AND {
+			lv := ue.X
+			lt := c.typeOf(lv)
+			name := callee.Name()
+			switch {
+			case strings.HasPrefix(name, "Add") && len(args) == 2:
+				cur := asInt(c.eval(lv, s))
+				nv := c.arithResultNoOvf(add(cur, asInt(args[1])), lt)
+				c.assign(lv, IntV{nv}, s)
+				c.note("sync/atomic operations are modelled as sequentially consistent read-modify-write steps")
+				return IntV{nv}, true
+			case strings.HasPrefix(name, "Load"):
+				return c.eval(lv, s), true
+			case strings.HasPrefix(name, "Store") && len(args) == 2:
+				c.assign(lv, args[1], s)
+				return NoneV{}, true
+			case strings.HasPrefix(name, "CompareAndSwap") && len(args) == 3:
+				cur := c.eval(lv, s)
+				same := c.valuesEqual(cur, args[1], lt)
+				c.assign(lv, c.mergeValues(s, []Value{args[2], cur}, []string{same, "true"}, "cas"), s)
+				return BoolV{same}, true
+			}
+		}
 	}
 	if key == "proto.Unmarshal" && len(args) == 2 && len(x.Args) == 2 {
 		return c.protoUnmarshal(x, s, args), true
